@@ -28,9 +28,9 @@ namespace {
 // ---------------------------------------------------------------------------------------------------------------
 // sub `timers`
 // ---------------------------------------------------------------------------------------------------------------
-enum { CFG, NEW, INIT, ENABLE, DISABLE, DESTROY, ADV, CLEANUP, NOPS };
+enum { CFG, NEW, INIT, ENABLE, DISABLE, DESTROY, ADV, CLEANUP, CANCEL_STALE, NOPS };
 // callback script actions
-enum { A_NONE, A_DIS_SELF, A_DIS_OTHER, A_EN_OTHER, A_REINIT_OTHER, A_DESTROY_OTHER, A_NEW, A_EN_SELF, A_REINIT_EN_OTHER, A_RESTART_OTHER, A_REINIT_SELF, NACT };
+enum { A_NONE, A_DIS_SELF, A_DIS_OTHER, A_EN_OTHER, A_REINIT_OTHER, A_DESTROY_OTHER, A_NEW, A_EN_SELF, A_REINIT_EN_OTHER, A_RESTART_OTHER, A_REINIT_SELF, A_CANCEL_STALE, A_CLEANUP, NACT };
 // clock advance kinds
 enum { ADV_0, ADV_1, ADV_NEXT_M1, ADV_NEXT, ADV_PERIODS, ADV_2P31, ADV_2P40, ADV_RAW, NADV };
 
@@ -78,6 +78,7 @@ struct T {
   // --- real side
   TimerEvent *ev = nullptr;          // direct mode
   TimerPool::TimerToken tok;         // pool mode
+  int life = 0;                      // pool mode: number of TimerPool::cleanup() calls before the task was scheduled
 };
 
 struct Ctx {
@@ -92,6 +93,7 @@ struct Ctx {
   size_t ip = 0;
   int grace = 0, finale = 0;
   int cur_cb = -1;                      // id of the timer whose callback is running
+  int life = 0;                         // pool mode: cleanup() calls so far (the SAME pool object is used on)
   bool not_running = false;             // operations are being issued before runLoop()
   uint64_t storm = 0;                   // callbacks seen after the first failure
   uint64_t pass_fires = 0, cb_total = 0; int pass_no = 0;
@@ -102,7 +104,9 @@ struct Ctx {
        c_restart_oneshot_cb = false, c_destroy_cb = false, c_new_cb = false, c_restart_other_cb = false, c_huge = false,
        c_exact = false, c_minus1 = false, c_dis_self_persist = false, c_en_other_cb = false, c_oneshot_fired = false,
        c_persist_fired = false, c_grace = false, c_cleanup = false, c_reenable = false, c_same_pass_multi = false,
-       c_heap_middle = false, c_reinit_self_cb = false;
+       c_heap_middle = false, c_reinit_self_cb = false,
+       c_cleanup_cb = false, c_stale_old_life = false, c_stale_same_life = false, c_stale_cb = false, c_new_life_fired = false,
+       c_cleanup_then_followup_cb = false;
 
   Ctx(const Scenario &s, CaseInfo &i) : scn(s), info(i) {}
 
@@ -135,7 +139,7 @@ struct Ctx {
     int id = x->id; Ctx *self = this;
     if (use_pool) {
       // created enabled: doEvery/doAfter start the interval now
-      x->enabled = true; x->t_enable = now(); x->deadline = now() + interval; x->fires = 0;
+      x->enabled = true; x->t_enable = now(); x->deadline = now() + interval; x->fires = 0; x->life = life;
       setWhy(*x, "created through TimerPool (enabled)"); x->ever_enabled = true;
       auto cb = [self, id] { self->onFire(id); };
       x->tok = oneshot ? pool->doAfter(std::chrono::milliseconds(interval), cb) : pool->doEvery(std::chrono::milliseconds(interval), cb);
@@ -174,8 +178,35 @@ struct Ctx {
     if (x.enabled) noteKill(x);
     x.alive = false; x.enabled = false;
     setWhy(x, use_pool ? "cancelled" : "destroyed");
-    if (use_pool) pool->cancel(x.tok);
-    else { delete x.ev; x.ev = nullptr; }
+    if (use_pool) {
+      // cancel() with the task's OWN token while the task is pending.  (Inside a doAfter task's own callback the
+      // answer is left free: the pool releases the token only after the callback has returned.)
+      bool self_oneshot_cb = x.in_cb && x.oneshot;
+      bool r = pool->cancel(x.tok);
+      if (!r && !self_oneshot_cb) fail("TimerPool::cancel() with the own token of the pending " + desc(x) + " returned false");
+    } else { delete x.ev; x.ev = nullptr; }
+  }
+  // TimerPool::cleanup() on the pool that stays in use: every pending task is cancelled; tokens of earlier lives are stale
+  void opCleanup() {
+    c_cleanup = true; if (cur_cb >= 0) c_cleanup_cb = true;
+    for (auto &p : ts) if (p->alive) { if (p->enabled) noteKill(*p); p->alive = false; p->enabled = false; setWhy(*p, "cancelled by TimerPool::cleanup()"); }
+    ++life;
+    pool->cleanup();
+  }
+  // cancel() with the token of a task that is gone (cancelled, fired doAfter task, or swept by an earlier cleanup()):
+  // the token addresses nothing - cancel() answers false and no pending task is touched (the model does not change,
+  // so a task that is killed by it is reported as MISSING at its deadline at the latest)
+  void opCancelStale(int64_t k) {
+    std::vector<T*> dead;
+    for (auto &p : ts) if (!p->alive && !p->in_cb && !p->tok.isNull()) dead.push_back(p.get());
+    if (dead.empty()) return;
+    T *y = dead[idxIn(k, dead.size())];
+    (y->life < life ? c_stale_old_life : c_stale_same_life) = true;
+    if (cur_cb >= 0) c_stale_cb = true;
+    C02_TRACE("t=%llu  cancel() with the stale token of timer %d (life %d, now life %d)", (unsigned long long)now(), y->id, y->life, life);
+    if (pool->cancel(y->tok))
+      fail("TimerPool::cancel() with the stale token of " + desc(*y) + " (scheduled in life " + std::to_string(y->life) + " of the pool, now life " + std::to_string(life) +
+           ") returned true, issued by " + who());
   }
   void noteKill(const T &x) {
     if (!isDue(x)) return;
@@ -248,6 +279,7 @@ struct Ctx {
     if (!x.oneshot && x.last_pass == pass_no) c_same_pass_multi = true;
     x.last_pass = pass_no;
     (x.oneshot ? c_oneshot_fired : c_persist_fired) = true;
+    if (use_pool && x.life > 0) c_new_life_fired = true;
     C02_TRACE("t=%llu  CALLBACK timer %d (deadline %llu, callback %llu since enable at %llu)", (unsigned long long)n, id, (unsigned long long)x.deadline, (unsigned long long)x.fires + 1, (unsigned long long)x.t_enable);
     // model step
     ++x.fires; ++x.total;
@@ -277,6 +309,11 @@ struct Ctx {
       switch (act) {
         case A_DIS_SELF: case A_REINIT_SELF: if (!x.oneshot) c_dis_self_persist = true; opDestroy(x); break;
         case A_DIS_OTHER: case A_DESTROY_OTHER: case A_RESTART_OTHER: if (T *y = pickOther(x, sel, 0)) { c_destroy_cb = true; opDestroy(*y); } break;
+        case A_CANCEL_STALE: opCancelStale((int64_t)(sel >> 1) * ((sel & 1) ? -1 : 1) - (sel & 1)); break;   // sel even: from the oldest, odd: from the newest
+        case A_CLEANUP:   // cleanup() from inside a task, optionally followed by follow-up tasks on the same pool
+          opCleanup();
+          for (unsigned i = 0; i < (sel & 3); ++i) { int64_t s2[kScript] = {x.script[1], x.script[2], x.script[3], 0}; if (opNew(i ? (uint64_t)kCbIntervals[(extra + i) & 7] : niv, i ? !nshot : nshot, s2)) { c_new_cb = true; c_cleanup_then_followup_cb = true; } }
+          break;
         default: break;
       }
       if (act == A_NEW || act == A_EN_SELF || act == A_RESTART_OTHER || act == A_REINIT_SELF) {   // RESTART_OTHER / REINIT_SELF: cancel and create a replacement
@@ -370,11 +407,8 @@ struct Ctx {
         case ENABLE: if (use_pool || al.empty()) break; opEnable(*al[idxIn(op.arg(0), al.size())]); checkEnabled("enable"); break;
         case DISABLE: if (al.empty()) break; opDisable(*al[idxIn(op.arg(0), al.size())]); checkEnabled("disable"); break;
         case DESTROY: if (al.empty()) break; opDestroy(*al[idxIn(op.arg(0), al.size())]); checkEnabled("destroy"); break;
-        case CLEANUP:
-          if (!use_pool) break;
-          c_cleanup = true;
-          for (T *p : al) { p->alive = false; p->enabled = false; setWhy(*p, "cancelled by TimerPool::cleanup()"); }
-          pool->cleanup(); break;
+        case CLEANUP: if (use_pool) opCleanup(); break;
+        case CANCEL_STALE: if (use_pool) opCancelStale(op.arg(0)); break;
         case ADV: { uint64_t d = advance(op); clk->now += d; C02_TRACE("t=%llu  clock advanced by %llu", (unsigned long long)now(), (unsigned long long)d); return true; }
         default: break;   // CFG after the first position: ignored
       }
@@ -454,6 +488,12 @@ struct Ctx {
     info.cls_if(cb_total >= 20, "callbacks>=20");
     info.cls_if(c_grace, "needed_extra_pass");
     info.cls_if(c_cleanup, "pool_cleanup_mid_history");
+    info.cls_if(c_cleanup_cb, "pool_cleanup_inside_callback");
+    info.cls_if(c_cleanup_then_followup_cb, "pool_cleanup_then_followup_task_in_same_callback");
+    info.cls_if(c_new_life_fired, "pool_task_of_a_later_life_fired");
+    info.cls_if(c_stale_old_life, "pool_cancel_stale_token_of_earlier_life");
+    info.cls_if(c_stale_same_life, "pool_cancel_stale_token_of_same_life");
+    info.cls_if(c_stale_cb, "pool_cancel_stale_token_inside_callback");
     info.nontrivial = max_alive >= 3 && (c_kill_due || c_late2 || c_group3);
     return err;
   }
@@ -516,7 +556,7 @@ Scenario expand(int64_t seed, int size) {
   for (int i = 0; i < npal; ++i) pal[i] = fresh(mag);
   auto iv = [&]() -> int64_t { return rng(0, 9) < 7 ? pal[rng(0, npal - 1)] : fresh(mag); };
   auto script = [&]() -> int64_t {
-    int64_t act = pick({{8, A_NONE}, {2, A_DIS_SELF}, {4, A_DIS_OTHER}, {2, A_EN_OTHER}, {2, A_REINIT_OTHER}, {3, A_DESTROY_OTHER}, {2, A_NEW}, {2, A_EN_SELF}, {2, A_REINIT_EN_OTHER}, {2, A_RESTART_OTHER}, {2, A_REINIT_SELF}});
+    int64_t act = pick({{8, A_NONE}, {2, A_DIS_SELF}, {4, A_DIS_OTHER}, {2, A_EN_OTHER}, {2, A_REINIT_OTHER}, {3, A_DESTROY_OTHER}, {2, A_NEW}, {2, A_EN_SELF}, {2, A_REINIT_EN_OTHER}, {2, A_RESTART_OTHER}, {2, A_REINIT_SELF}, {pool ? 2 : 0, A_CANCEL_STALE}, {pool ? 1 : 0, A_CLEANUP}});
     if (act == A_NONE) return 0;
     return act + 16 * rng(0, 63) + 1024 * rng(0, 1023);
   };
@@ -531,14 +571,20 @@ Scenario expand(int64_t seed, int size) {
   if (!pool) for (int i = 0; i < n0; ++i) if (rng(0, 9) < 8) mk(ENABLE, {i});
   int len = 10 + size; int nops = (int)rng(len / 3, len);
   while ((int)v.size() < nops) {
-    switch (pick({{30, ADV}, {pool ? 0 : 14, ENABLE}, {7, DISABLE}, {4, DESTROY}, {7, NEW}, {pool ? 2 : 6, INIT}, {pool ? 1 : 0, CLEANUP}})) {
+    switch (pick({{30, ADV}, {pool ? 0 : 14, ENABLE}, {7, DISABLE}, {4, DESTROY}, {7, NEW}, {pool ? 2 : 6, INIT}, {pool ? 2 : 0, CLEANUP}, {pool ? 3 : 0, CANCEL_STALE}})) {
       case ADV: advOp(); break;
       case ENABLE: mk(ENABLE, {rng(-3, 11)}); break;
       case DISABLE: mk(DISABLE, {rng(-3, 11)}); if (!pool && rng(0, 2) == 0) mk(ENABLE, {v.back().a[0]}); break;   // disable + re-enable: fresh interval
       case DESTROY: mk(DESTROY, {rng(-3, 11)}); break;
       case NEW: mkNew(); if (!pool && rng(0, 9) < 8) mk(ENABLE, {-1}); break;
       case INIT: { int64_t t = rng(-3, 11); mk(INIT, {t, iv(), pick({{3, 0}, {2, 1}})}); if (!pool && rng(0, 9) < 7) mk(ENABLE, {t}); break; }
-      case CLEANUP: mk(CLEANUP, {}); break;
+      case CLEANUP: {   // the pool lives on: new tasks on the same pool, then (often) tokens of the earlier life are used again
+        mk(CLEANUP, {});
+        int nn = (int)rng(1, 5); for (int i = 0; i < nn; ++i) mkNew();
+        if (rng(0, 9) < 7) { int nc = (int)rng(1, 3); for (int i = 0; i < nc; ++i) mk(CANCEL_STALE, {rng(0, 9) < 7 ? rng(0, 7) : rng(-4, 40)}); }
+        if (rng(0, 1)) advOp();
+        break; }
+      case CANCEL_STALE: mk(CANCEL_STALE, {rng(0, 2) ? rng(0, 9) : rng(-6, 40)}); break;
     }
   }
   return sc;
@@ -547,8 +593,8 @@ Scenario expand(int64_t seed, int size) {
 
 SubDef def = [] {
   SubDef d; d.name = "timers";
-  d.op_names = {"cfg", "new", "init", "enable", "disable", "destroy", "adv", "cleanup"};
-  d.op_arity = {4, 6, 3, 1, 1, 1, 2, 0};
+  d.op_names = {"cfg", "new", "init", "enable", "disable", "destroy", "adv", "cleanup", "cancelstale"};
+  d.op_arity = {4, 6, 3, 1, 1, 1, 2, 0, 1};
   d.nt_rule = ">= 3 timers alive at once and (a callback disabled/re-initialised/destroyed a DIFFERENT timer that was due in the same pass, "
               "or a persistent timer was served by a pass that was >= 2 of its periods late, or >= 3 distinct timers fired on one shared deadline)";
 #ifndef VERIF_ENGINE_FUZZ
